@@ -58,6 +58,38 @@ def typed(x):
   return (type(x).__name__, repr(x))
 
 
+class _Odd:
+  """A caller value with an unhelpful `==`: equal to everything ('any'), or returning an object
+  that cannot be used as a bool ('arr', like a numpy array). Gin has no reason to compare caller
+  values with anything; the function must receive this very object."""
+
+  def __init__(self, kind, tag):
+    self.kind, self.tag = kind, tag
+
+  def __eq__(self, other):
+    if self.kind == 'any':
+      return True
+    return _NoBool()
+
+  __hash__ = None
+
+  def __repr__(self):
+    return f'<odd:{self.kind}:{self.tag}>'
+
+
+class _NoBool:
+
+  def __bool__(self):
+    raise ValueError('The truth value of an array with more than one element is ambiguous.')
+
+
+def _deodd(rec):
+  """Replaces _Odd objects (top level of a call record) by plain tokens so records can be compared."""
+  f = lambda v: ('odd', v.kind, v.tag) if isinstance(v, _Odd) else v
+  return {'named': {k: f(v) for k, v in rec['named'].items()}, 'args': [f(v) for v in rec['args']],
+          'kw': {k: f(v) for k, v in rec['kw'].items()}}
+
+
 def _probe_call(built, args, kwargs):
   return built.call(args, kwargs)
 
@@ -154,8 +186,12 @@ def check_case(case):
         app = M.overlay(model, act)
         # caller values are passed as fresh mutable objects: "reaches the function unchanged"
         # is checked by value and by identity
-        args = [[a] for a in call['args']]
-        kwargs = {k: [v] for k, v in call['kwargs'].items()}
+        odd = call.get('odd') or {}
+        wrap = lambda key, v: _Odd(odd[key], v) if key in odd else [v]
+        args = [wrap(str(i), a) for i, a in enumerate(call['args'])]
+        kwargs = {k: wrap(k, v) for k, v in call['kwargs'].items()}
+        if odd:
+          labels.add('caller-value-with-odd-eq')
         verdict, exp = M.expected_call(sig, args, kwargs, app)
         n_before = len(built.log)
         try:
@@ -163,6 +199,11 @@ def check_case(case):
           raised = None
         except TypeError as e:
           raised = e
+        except ValueError as e:
+          if 'truth value' not in str(e):
+            raise
+          raise Violation('caller-value-compared', f'Gin used == / bool() on a caller value: {e}\n'
+                          f'args={args} kwargs={kwargs} applicable={app}')
         if verdict == 'TypeError':
           require(raised is not None, 'typeerror-expected',
                   lambda: f'Python cannot bind this call ({exp}) but Gin delivered {rec}')
@@ -171,13 +212,14 @@ def check_case(case):
         else:
           require(raised is None, 'unexpected-typeerror',
                   lambda: f'{raised}\nargs={args} kwargs={kwargs} applicable={app} scope={act}')
-          got_rec = {k: rec[k] for k in ('named', 'args', 'kw')}
+          seen = list(rec['named'].values()) + list(rec['args']) + list(rec['kw'].values())
+          got_rec = _deodd(rec)
+          exp = _deodd(exp)
           require(got_rec == exp and typed(got_rec) == typed(exp), 'arguments-differ',
                   lambda: f'scope={act} args={args} kwargs={kwargs}\n bindings={sorted(model.items())}'
                           f'\n got  {got_rec}\n model {exp}')
           require(rec['scope'] == '/'.join(act), 'scope-seen-by-body',
                   lambda: f"{rec['scope']!r} vs {act}")
-          seen = list(rec['named'].values()) + list(rec['args']) + list(rec['kw'].values())
           for obj in args + list(kwargs.values()):
             require(any(x is obj for x in seen), 'caller-value-not-the-same-object',
                     lambda: f'the caller passed {obj!r}; the function received an equal copy, '
@@ -275,6 +317,10 @@ def strategy(draw):
     call = {'args': args, 'kwargs': {k: 'K%d.%s' % (j, k) for k in dict.fromkeys(kw_names)}}
     if draw(st.integers(0, 3)) == 0:
       call['enter'] = draw(_entry)
+    keys = [str(i) for i in range(n_pos)] + list(call['kwargs'])
+    if keys and draw(st.integers(0, 3)) == 0:
+      call['odd'] = {k: draw(st.sampled_from(['any', 'arr']))
+                     for k in draw(st.lists(st.sampled_from(keys), unique=True, min_size=1, max_size=3))}
     if j > 0 and draw(st.integers(0, 2)) == 0:
       call['rebind'] = [draw(st.integers(0, 11)), j, draw(st.booleans())]
     calls.append(call)
